@@ -193,7 +193,8 @@ def fieldInfoOf (j : Json) : D FieldInfo := do
     | .ok v => do let a ← arrOf v; a.mapM strOf
     | .error _ => pure []
   let si ← optField j "skip_if" condOf
-  pure { name := name, dflt := dflt, isFactory := getBoolD j "factory" false, init := getBoolD j "init" true,
+  let post ← optField j "post" litOf
+  pure { name := name, postInit := post, dflt := dflt, isFactory := getBoolD j "factory" false, init := getBoolD j "init" true,
          loadKeys := lk, dumpAll := getBoolD j "dump_all" false, dumpSkip := getBoolD j "dump_skip" false,
          skipIf := si, isCatchAll := getBoolD j "catch_all" false }
 
